@@ -46,6 +46,7 @@ class RawPeer:
         self.data_conns = []
         self.eof = False
         self.lost = None
+        self.gate = None  # when set (a never-completed future) the peer stops sending commands
 
     # -- control channel -----------------------------------------------------
     async def connect(self, greet=True):
@@ -119,7 +120,14 @@ class RawPeer:
             self.transcript.append(("C", repr(line)))
         self.writer.write(data)
 
+    def freeze(self):
+        """The peer goes idle: keeps its sockets, keeps reading, sends no more commands."""
+        if self.gate is None:
+            self.gate = self.loop.create_future()
+
     async def cmd(self, line, wait=REPLY_WAIT):
+        if self.gate is not None:
+            await self.gate
         self.send(line)
         return await self.read_reply(wait)
 
